@@ -8,7 +8,7 @@ META = dict(
                 'symbolic targets, offsets, input powers (above and below target), max-loss impairment, mixed baud rates/slot '
                 'widths; oracle P_out = min(target*offset, P_in/maxloss) in linear units; plus single-policy enforcement and '
                 'per-degree target population harnesses',
-    bounds=['channels k<=3 (quick) / 4 (thorough)', 'baud/slot per channel fixed to (32/50, 64/75, 42/50, 32/37.5 GHz)',
+    bounds=['channels k<=3 (quick) / 6 (thorough)', 'baud/slot per channel fixed to (32/50, 64/75, 42/50, 32/37.5, 60/62.5, 28/37.5 GHz)',
             'floats as reals', 'internal paths: one ROADM with two ingress and two egress degrees and a transceiver, 6 impairment profiles '
             '(two per path type), the non-default one selected on one of 6 crossings or none'],
     assumptions=['floats modelled as reals', 'targets, offsets and powers positive in linear units (any dB value)',
@@ -18,7 +18,7 @@ META = dict(
 
 
 def jobs(tier):
-    ks = [2, 3] if tier == 'quick' else [2, 3, 4, 5]
+    ks = [2, 3] if tier == 'quick' else [2, 3, 4, 5, 6]
     js = []
     for pol in ('pch', 'psd', 'psw'):
         for ov in ('none', 'pch', 'psd', 'psw'):
